@@ -39,6 +39,8 @@ SNIPPETS = [
     "from util import helper, Thing\n\nt = Thing()\ng = t.grow()\n",
     "from helper import *\n\nhu = util()\n",
     "import helper\n\nhv = helper.util\n",
+    "from generated.schema import *\n\ngt = table\n",
+    "from generated import schema\n\ngs = schema.COLS\n",
 ]
 
 
@@ -97,7 +99,8 @@ class Sim:
         self.fs = simfs.SimFS(self.root, self.clock, stamp=True)
         # SOA-on variant: static object analysis runs on every write through rope and fills the
         # object-info store; answers that depend on that store are already left out of the battery
-        self.prefs = {"automatic_soa": bool(swarm.get("soa", False))}
+        self.prefs = {"automatic_soa": bool(swarm.get("soa", False)),
+                      "ignored_resources": ["*.pyc", "*~", ".ropeproject", "generated"]}
         self.W = Project(self.root, fscommands=self.fs, ropefolder=None, **self.prefs)
         self.sq = _patch_autoimport()
         self.use_autoimport = swarm.get("autoimport", True)
@@ -787,6 +790,9 @@ class CoherenceEngine(Engine):
             k = rng.choice(["write"] * 4 + ["create_module"] * 2 + ["create_package", "move", "move", "remove", "remove", "refactor", "refactor", "refactor", "move_module", "to_package", "undo", "undo", "redo"])
             if k == "write" and pyfiles:
                 p = rng.choice(pyfiles)
+                if "generated/schema.py" in t and rng.random() < 0.15:
+                    newdefs = rng.choice(["def table():\n    return 2\n\n\nCOLS = 4\nEXTRA = 1\n", "def rows():\n    return 0\n", "COLS = 5\n\n\ndef table():\n    return 3\n\n\ndef view():\n    return table()\n"])
+                    return {"a": "c_write", "p": "generated/schema.py", "text": newdefs, "dt": dt}
                 cur = t[p].decode("utf-8", "replace")
                 new = text(p) if rng.random() < 0.4 else cur + text(p)
                 if p.endswith("__init__.py"):
@@ -881,6 +887,11 @@ class CoherenceEngine(Engine):
         init = gen.gen_program(rng)
         for e in init:
             e["nl"] = "lf"
+        if rng.random() < 0.5:
+            # an ignored folder with a module the project imports from
+            init.append({"p": "generated", "dir": True})
+            init.append({"p": "generated/__init__.py", "text": "", "nl": "lf", "enc": "utf-8"})
+            init.append({"p": "generated/schema.py", "text": "def table():\n    return 1\n\n\nCOLS = 3\n", "nl": "lf", "enc": "utf-8"})
         if rng.random() < 0.6:
             init.append({"p": "helper.txt", "text": "def util():\n    return 1\n\n\nclass Thing:\n    size = 3\n", "nl": "lf", "enc": "utf-8"})
         return self._go({"init": init, "swarm": swarm, "steps": None}, rng)
